@@ -71,6 +71,8 @@ M = [
  ("packet write_to: OPT after additional", D + 'packet.rs',
   "        if let Some(rr) = self.header.opt_rr() {\n            rr.write_to(out)?;\n        }\n\n        for e in &self.additional_records {\n            e.write_to(out)?;\n        }\n",
   "        for e in &self.additional_records {\n            e.write_to(out)?;\n        }\n\n        if let Some(rr) = self.header.opt_rr() {\n            rr.write_to(out)?;\n        }\n", 'fail:packet_write_order'),
+ ("packet write_to: the final flush removed", D + 'packet.rs', "        out.flush()?;\n        Ok(())\n", "        Ok(())\n", 'fail:packet_write_order'),
+ ("packet write_compressed_to: the final flush removed", D + 'packet.rs', "        out.flush()?;\n\n        Ok(())\n", "        Ok(())\n", 'fail:packet_write_order'),
  ("packet write_header: answers and name servers exchanged", D + 'packet.rs',
   "self.answers.len() as u16,\n            self.name_servers.len() as u16,", "self.name_servers.len() as u16,\n            self.answers.len() as u16,", 'fail:header_counts_line_up'),
  ("mdns refresh at ttl / 10 * 9", 'simple-mdns/src/resource_record_manager.rs', 'ttl / 10 * 8', 'ttl / 10 * 9', 'fail:refresh_offset'),
